@@ -223,7 +223,10 @@ CLAIMED.update({
         technique="Lean 4 proof (whole-run model: for EVERY prefix of a run's operation sequence the next good run yields exactly the uninterrupted tree; every prefix of the swap is a legal state; transfers never write in place; leftovers of a dead run are removed and do not influence what is published; partial files are never taken for complete; stale lock) + L2 correspondence of real runs with the whole-run model + crash-point sweep on the real tool: sandbox copied at mutation prefixes, C03 predicate on the copy, rerun from the copy compared with the uninterrupted run",
         text=("C07_index_rerun_content (index stage: from any state a dead run left at the names of an index variant, an accepting attempt ends "
               "with every name on exactly the served content; assumption S5), C07_index_file_content (the same over the retry loop, the aliases "
-              "and the compression variants of one index file, S5 kept as an invariant), C07_index_torso_refetched, "
+              "and the compression variants of one index file, S5 kept as an invariant), C07_index_stage_content (the same over the queue of a whole "
+              "index stage: S5 is assumed of the state the dead run left only; if the names of an index file belong to no other queue entry and "
+              "its transfer is accepted, every name of the accepted variant shows the served content at the END of the stage, whatever the other "
+              "entries do), C07_index_torso_refetched, "
               "C07_crash_during_publish, C07_crash_during_transfers, C07_leftovers_ignored, C07_no_leftovers, C07_partial_not_unmodified, "
               "C07_partial_not_shortcut and C07_stale_lock are proved for all prior filesystems, staged file sets, queues and crash "
               "indices; real update runs are cut at stratified mutation prefixes, every swap rename/rmtree and at delivered chunks, and "
@@ -233,7 +236,7 @@ CLAIMED.update({
               "(paths, sizes, contents), C07_torso_not_accepted that a file being written is shorter than declared, C07_crash_invariants / "
               "C07_crash_then_newer that the hypotheses survive the crash also for a rerun against a newer version; every real rerun is "
               "replayed in that model from the crashed tree (bodies requested, files removed, final tree)."),
-        note="Whole-run convergence is a theorem for the pool/publish/clean part of a run (inputs: the needed lists the earlier stages computed). PARTIAL: the release-file stage and the composition of the per-file index theorem over the queue of a whole stage are covered by the crash-point sweep only. Process death only (no fsync analysis). Wipe protection disabled (S4). Trusted: Lean kernel, model, harness tracer (crash point = before the k-th attempted mutation).",
+        note="Whole-run convergence is a theorem for the pool/publish/clean part of a run (inputs: the needed lists the earlier stages computed). PARTIAL: the release-file stage (which flavour is kept, retry rounds) is covered by the crash-point sweep only; the index-stage theorem is sequential (interleavings of disjoint transfers commute: C15). Process death only (no fsync analysis). Wipe protection disabled (S4). Trusted: Lean kernel, model, harness tracer (crash point = before the k-th attempted mutation).",
         design="6/C07"),
     "C08": dict(
         technique="Lean 4 proof of the canonical form and idempotence of a whole run on Model/Mirror.lean (result = function of what the run needed, for any prior tree; repeated run = swap only) and of the per-file fixed-point facts (complete pool file never requested, unchanged metadata accepted without body, download sets the announced date on every path, immediately repeated request is 'unmodified', a changed size/date is fetched) + history sweep on the real tool against a first-ever mirror and a repeat run with transfer log",
